@@ -103,6 +103,14 @@ class Tracer:
                     flds = rs.x.get("fields") or []
                     if name in flds:
                         out += self.roots(rb, rs.a[flds.index(name)], rbind, depth + 1, seen)
+                        # ... or anything assigned to that field of such a value afterwards (`self.compression.type_ = x`
+                        # after `compression: Compression { type_: None, .. }`): flow-insensitive, crate-wide
+                        if rs.x.get("ak") == "adt" and adt in self.F.adts and self.F.adts[adt]["kind"] == "Struct":
+                            key = ("fieldstore", adt, name)
+                            if key not in seen:
+                                for vb, site, st in field_stores(self.F, adt, name):
+                                    if site.i is not None and st.get("s") == "assign":
+                                        out += self.roots(vb, vb._expr_of_def((site, "assign", st["rv"])), None, depth + 1, seen | {key})
                         continue
                     if rs.x.get("ak") == "tuple" and e.x.get("idx", 99) < len(rs.a):
                         out += self.roots(rb, rs.a[e.x["idx"]], rbind, depth + 1, seen)
